@@ -228,6 +228,12 @@ example : maskOf ⟨[], (-99925, -2), [[.num 1 0, .num (-9992575) (-4), .num (-9
 /-- a declared NULL of 0 is a NULL like any other: zeros (in any spelling) and bad tokens are masked, -999.25 is data -/
 example : maskOf ⟨[], (0, 0), [[.num 5 0, .num 0 0, .num 0 (-2), .num (-99925) (-2), .null]]⟩ =
     [[false, true, true, false, true]] := by decide +kernel
+/-- mnemonics and units are names: a curve called `1` with units `10`, or `NO`, is an ordinary header line -/
+example : wfHLine (exLine "1" "10" (.text []) "curve named 1") = true ∧ wfHLine (exLine "NO" "1E3" (.int 5) "") = true ∧
+    (match lineToSectLine "007.10 12 : d".toList with
+      | .ok l => l == ⟨.text "007".toList, .text "10".toList, .int 12, .text "d".toList⟩
+      | .error _ => false) = true := by
+  decide +kernel
 example : wfContent (exContent false) = true := by decide +kernel
 example : wfContent (exContent true) = true := by decide +kernel
 example : wrapOf (exContent true) = true ∧ wrapOf (exContent false) = false := by decide +kernel
